@@ -584,6 +584,34 @@ class ExprMixin:
     def ev_Yield(self, e, fr, st):
         site = self.site_of(e, fr)
         v = self.eval(e.value, fr, st) if e.value is not None else self.const(None)
+        hook = fr.cm_hook
+        if hook is not None:
+            # the generator of a @contextmanager: at its yield the with-block runs (in the frame of the function that
+            # contains it, on the state reached here), then the generator resumes
+            if hook["ran"]:
+                self.effect("unsupported", site, st, fr, what="context manager yields on more than one path")
+                return self.const(None, site)
+            hook["ran"] = True
+            ofr = hook["fr"]
+            ost = St(hook["locals"], st.heap, st.cur, st.pc)
+            if hook["target"] is not None:
+                self.assign(hook["target"], v, ofr, ost)
+            saved_fn = self._cur_fn
+            self._cur_fn = ofr.func
+            try:
+                falls = self.exec_block(hook["body"], ofr, ost)
+            finally:
+                self._cur_fn = saved_fn
+            hook["locals_after"], hook["falls"] = ost.locals, falls
+            st.heap, st.cur, st.pc = ost.heap, ost.cur, ost.pc
+            if not falls:
+                # every path of the block leaves it (return / raise): the generator is closed at the yield; only
+                # `finally` clauses around it would still run
+                if any(isinstance(x, ast.Try) and x.finalbody for x in ast.walk(fr.func.node)):
+                    self.effect("unsupported", site, st, fr, what="with-block left early through a context manager with "
+                                "a finally clause")
+                raise PathEnd()
+            return self.const(None, site)
         if self._yield_collect([self.freeze(v, st)], st, site):
             return self.const(None, site)
         # a generator body analysed on request (Interp.analyse_generators): yields are effects
